@@ -18,25 +18,39 @@ META = {
     "minimal, pixel edges aligned to the requested anchor, same-units => source resolution, fit => positive "
     "square pixels, shape requests exact, same CRS + defaults => the source object, hemisphere arithmetic, "
     "best CRS = maximal overlap; enclosure of every projected pixel under the explicit hypothesis that the "
-    "footprint bbox contains them.  Tied to /repo each run: exact correspondence of snap_grid (exhaustive "
+    "footprint bbox contains them.  Growth round (Model/Props C11Glue): the argument forms around that core — "
+    "resolution= as number / Resolution / exact words / anything else, GCPGeoBox sources (behave as 'other CRS': "
+    "every theorem carries over), the centre-pixel estimate computed by the model from the projected centre-pixel box "
+    "(fit theorem without the cpRes hypothesis), keyword defaults of GeoBox.to_crs / .odc.output_geobox, argument "
+    "dispatch of CRS.utm and norm_crs / norm_crs_or_error; composed with C09 in Props/C09C11 (xr_reproject from its "
+    "arguments to the recovered GeoBox).  Tied to /repo each run: exact correspondence of snap_grid (exhaustive "
     "small domain), from_bbox and compute_output_geobox with the pyproj-derived inputs captured from the real "
-    "run, plus an independent pyproj oracle projecting every source pixel corner on real CRS pairs.",
+    "run, CRS.utm's area of interest intercepted at the pyproj database boundary, norm_crs forms, plus an independent "
+    "pyproj oracle projecting every source pixel corner on real CRS pairs and the same-units rule judged from the axis "
+    "definitions over every axis pattern of the installed PROJ database.",
     "note": "Model follows the code incl. the repair on branch fix-C11 (footprint buffer uses the absolute pixel "
-    "size).  Known finding int-shape-longest-side-plus-one (integer shape + snapping anchor gives n+1).  "
-    "Partial: curvature of real projections (that the buffered, 100-point densified footprint's bbox "
-    "contains every projected pixel) is a hypothesis, sampled by the oracle inside the CRSs' areas of use; "
-    "pyproj/PROJ, shapely buffer and the UTM database query are trusted parameters; IEEE rounding sampled.",
+    "size).  Known findings: int-shape-longest-side-plus-one (integer shape + snapping anchor gives n+1); "
+    "same-units-resolution|axes-same-direction (CRS.units of polar CRSs is ('metre',''): default resolution re-estimated "
+    "although units are shared; repaired on branch fix2-C11).  Partial: curvature of real projections (that the buffered, "
+    "100-point densified footprint's bbox contains every projected pixel) is a hypothesis, sampled by the oracle inside the "
+    "CRSs' areas of use (rasters whose 0.9 px buffer crosses the antimeridian are excluded: the lon/lat footprint box then "
+    "spans the globe); pyproj/PROJ, shapely buffer and the UTM database query are trusted parameters; IEEE rounding sampled.  "
+    "Spies sit at public names (GeoBox.from_bbox, overlap.get_scale_at_point, pyproj.database.query_utm_crs_info); private "
+    "helpers are looked up defensively and their direct streams skipped with a note when absent.",
     "technique": "Lean 4 proof over hand model + differential correspondence with real code + pyproj oracle",
-    "inventory": "Modelled (Model/C11.lean): compute_output_geobox (fast path, resolution modes, same-units rule, fit average, "
-    "round_resolution, shape precedence, forwarding to from_bbox), from_bbox/_norm_anchor/snap_grid/_snap_edge/_snap_edge_pos/maybe_int/"
-    "split_float (proved identical to the C08/C20 models in Props/C11C08.lean), res_ (scalar -> (r,-r)), Python round(x,0), norm_crs "
-    "utm/utm-n/utm-s incl. spelling rule, _pick_best_crs (as repaired), GeoBoxBase.footprint in the linear (own-CRS) case "
-    "(linearFootprintBBox, extentCorners).  NOT modelled (parameters captured from the real run): Geometry.to_crs / densification "
-    "(_reproject_resolution, segmentize), shapely buffer with rounded corners for generally rotated sources (bbox only bounded: "
-    "contains the corners), gbox.resolution of rotated sources (decompose_rws, sqrt), center_pixel / native_pix_transform / "
-    "get_scale_at_point / affine_from_pts (the fit inputs cpRes, fitScale), CRS.utm's pyproj database query and CRS.valid_region "
-    "(candidate list and keys are inputs), CRS.units / CRS.__eq__ (sameUnits / sameCrs flags are inputs, judged with pyproj by the "
-    "harness), BoundingBox._norm_bbox for 'utm*' strings inside from_bbox, GCPGeoBox sources (isinstance guard of the fast path).",
+    "inventory": "Modelled (Model/C11.lean, C11Glue.lean): compute_output_geobox (fast path incl. the isinstance guard for GCP sources, "
+    "resolution modes, same-units rule, fit average, round_resolution, shape precedence, forwarding to from_bbox), the resolution= "
+    "argument forms (res_, Resolution.__init__), the centre-pixel box -> from_bbox(shape=(1,1), tight=True).resolution, "
+    "from_bbox/_norm_anchor/snap_grid/_snap_edge/_snap_edge_pos/maybe_int/split_float (proved identical to the C08/C20 models in "
+    "Props/C11C08.lean), Python round(x,0), GeoBox.to_crs and ODCExtension.output_geobox (defaults, forwarding, 'Not geo registered'), "
+    "norm_crs / norm_crs_or_error dispatch on the argument form, utm/utm-n/utm-s incl. spelling rule, CRS.utm argument dispatch down "
+    "to the query box, _pick_best_crs (as repaired), GeoBoxBase.footprint in the linear (own-CRS) case (linearFootprintBBox, "
+    "extentCorners).  NOT modelled (parameters captured from the real run): Geometry.to_crs / densification (_reproject_resolution, "
+    "segmentize), shapely buffer with rounded corners for generally rotated sources (bbox only bounded: contains the corners), "
+    "gbox.resolution of rotated / GCP sources (decompose_rws, sqrt), center_pixel / native_pix_transform / get_scale_at_point / "
+    "affine_from_pts (the fit scale), CRS.utm's pyproj database query and CRS.valid_region (candidate list and keys are inputs), "
+    "CRS.units / CRS.__eq__ (sameUnits / sameCrs flags are inputs; judged independently with pyproj axis definitions by the harness), "
+    "BoundingBox._norm_bbox for 'utm*' strings inside from_bbox, geographic CRSs in non-degree angular units.",
     "design_ref": "DESIGN.md §4 C11",
 }
 
@@ -50,7 +64,10 @@ def _import():
     from affine import Affine
     from odc.geo import overlap as ov
     from odc.geo import math as M
-    from odc.geo.crs import CRS, norm_crs, _pick_best_crs
+    from odc.geo import crs as _crs_mod
+    from odc.geo.crs import CRS, norm_crs
+
+    _pick_best_crs = getattr(_crs_mod, "_pick_best_crs", None)  # private helper: its stream is skipped when it is gone
     from odc.geo.geobox import GeoBox
     from odc.geo.types import resxy_, xy_, AnchorEnum
 
@@ -283,9 +300,12 @@ class Spy:
 
     def __enter__(self):
         Affine, GeoBox, ov = self.mods[0], self.mods[1], self.mods[2]
-        self._fb = GeoBox.__dict__["from_bbox"]
-        self._gs = ov.get_scale_at_point
-        orig_fb = GeoBox.from_bbox
+        # interception at PUBLIC names only (GeoBox.from_bbox, overlap.get_scale_at_point); when one of them is not there
+        # (moved / renamed) the spy records nothing for it and the callers skip what depends on the record
+        self._fb_owner = next((k for k in GeoBox.__mro__ if "from_bbox" in k.__dict__), None)
+        self._fb = self._fb_owner.__dict__["from_bbox"] if self._fb_owner is not None else None
+        self._gs = getattr(ov, "get_scale_at_point", None)
+        orig_fb = getattr(GeoBox, "from_bbox", None)
         spy = self
 
         def from_bbox(bbox, crs=None, **kw):
@@ -305,14 +325,47 @@ class Spy:
             spy.scale = (out.x, out.y)
             return out
 
-        GeoBox.from_bbox = staticmethod(from_bbox)
-        ov.get_scale_at_point = get_scale
+        if self._fb_owner is not None and orig_fb is not None:
+            setattr(self._fb_owner, "from_bbox", staticmethod(from_bbox))
+        if self._gs is not None:
+            ov.get_scale_at_point = get_scale
         return self
 
     def __exit__(self, *a):
-        GeoBox, ov = self.mods[1], self.mods[2]
-        GeoBox.from_bbox = self._fb
-        ov.get_scale_at_point = self._gs
+        ov = self.mods[2]
+        if self._fb_owner is not None:
+            setattr(self._fb_owner, "from_bbox", self._fb)
+        if self._gs is not None:
+            ov.get_scale_at_point = self._gs
+
+    def fit_recorded(self) -> bool:
+        return self.cp is not None and self.scale is not None
+
+
+_FIT_PROBE = {}
+
+
+def fit_interception_works(mods) -> bool:
+    """probe (once per process and code tree): does a plain fit request run through the public names the spy patches"""
+    Affine, GeoBox, ov = mods[0], mods[1], mods[2]
+    key = id(ov)
+    if key not in _FIT_PROBE:
+        try:
+            with Spy(mods) as spy:
+                ov.compute_output_geobox(GeoBox((4, 5), Affine(0.25, 0, 14, 0, -0.25, 50), "EPSG:4326"), "EPSG:3857", resolution="fit")
+            _FIT_PROBE[key] = spy.fit_recorded()
+        except Exception:  # pylint: disable=broad-except
+            _FIT_PROBE[key] = False
+    return _FIT_PROBE[key]
+
+
+def needs_fit(g, dst_crs, mode, shape) -> bool:
+    """does this request take the centre-pixel fit (judged from the arguments and the axis definitions)"""
+    if shape is not None:
+        return False
+    if mode == "fit":
+        return True
+    return mode == "auto" and not share_units(g.crs, dst_crs)
 
 
 def call_cog(mods, g, crs, mode, shape, tight, anchor, tol, rnd, subst=None):
@@ -325,6 +378,10 @@ def call_cog(mods, g, crs, mode, shape, tight, anchor, tol, rnd, subst=None):
             rounded.append(out)
             return out
     res = mode if not isinstance(mode, tuple) else resxy_(*mode)
+    if isinstance(mode, tuple) and mode[1] == -mode[0] and _ARNG[0] is not None:
+        # a number r means Resolution(r, -r) (res_): float, numpy float, int when integral, or the Resolution object
+        forms = [resxy_(*mode), float(mode[0]), np.float64(mode[0])] + ([int(mode[0])] if float(mode[0]).is_integer() else [])
+        res = _ARNG[0].choice(forms)
     with Spy(mods, subst) as spy:
         out = ov.compute_output_geobox(g, crs, resolution=res, shape=shape, tight=tight,
                                        anchor=anchor_py(anchor, xy_, AnchorEnum), tol=tol, round_resolution=rr)
@@ -448,7 +505,16 @@ def exact_cog_part(R: Run, mods):
             continue
         sig = (f"out|{mode_s(mode).split(':')[0]}|{'same-crs' if ' T ' in line[:12] else 'x-crs'}|{anchor_s(anchor).split(':')[0]}"
                + ("|tight" if tight else "") + ("|rnd" if rnd is not None else ""))
-        R.corr(line, lambda: real, sig=sig)
+        fit_path = not (box and box[0][0] is g) and mode_s(mode) != "bad" and needs_fit(g, bbox.crs, mode, shape)
+        if fit_path and not (spy.fit_recorded() if box else fit_interception_works(mods)):
+            # the centre-pixel fit ran but not through the public names the spy substitutes: the dyadic substitutes did
+            # not (all) take effect, so the exact comparison has no meaning; the oracles below still judge the result
+            R.count("exact:skipped-fit-not-intercepted")
+            if not any("fit not intercepted" in n for n in R.notes):
+                R.notes.append("fit not intercepted through GeoBox.from_bbox / overlap.get_scale_at_point: exact comparison of fit-mode "
+                               "requests skipped, property oracles kept")
+        else:
+            R.corr(line, lambda: real, sig=sig)
         if box and not callable(rnd) and mode_s(mode) != "bad":
             # the property oracles on the exact stream as well (own-CRS fast-path corner, explicit anchors on sources
             # that are not aligned that way, ...)
@@ -456,9 +522,291 @@ def exact_cog_part(R: Run, mods):
             judge(R, mods, g, spec, mode, shape, tight, anchor, tol, rnd, box[0][0], box[0][1],
                   {"line": line, "class": "exact", "dst": spec, "anchor": anchor_s(anchor)}, None, None)
         if box and box[0][1].final is not None:
-            fb = box[0][1].final["bbox"]
-            R.oracle(tuple(fb.bbox) == tuple(bbox.bbox), "captured-bbox-consistent", {"line": line},
-                     "bbox handed to from_bbox differs from footprint(crs, buffer=0.9, npoints=100).boundingbox", trivial=True)
+            # internal hand-over, not part of the property: recorded, never a violation
+            fb = box[0][1].final.get("bbox")
+            same = tuple(getattr(fb, "bbox", fb) or ()) == tuple(bbox.bbox)
+            R.count("captured-bbox-consistent" if same else "captured-bbox-differs")
+
+
+
+# ------------------------------------------------------------------ units, judged independently of odc-geo's CRS.units
+def as_bb(b):
+    """the bbox argument seen by the from_bbox spy, as an object with a `.bbox` 4-tuple (BoundingBox or plain sequence)"""
+    import types
+
+    if b is None:
+        return None
+    t = getattr(b, "bbox", b)
+    try:
+        t = tuple(float(v) for v in t)
+    except Exception:  # pylint: disable=broad-except
+        return None
+    return types.SimpleNamespace(bbox=t, crs=getattr(b, "crs", None)) if len(t) == 4 else None
+
+
+def close_rel(a, b, rel=1e-9) -> bool:
+    return abs(a - b) <= rel * max(abs(a), abs(b))
+
+
+def axis_units(pc):
+    """unit names of the two horizontal axes of a pyproj CRS, order-free"""
+    return tuple(sorted(str(a.unit_name) for a in pc.axis_info[:2]))
+
+
+def share_units(a, b) -> bool:
+    """do two CRSs (odc-geo wrappers) share units — read from the axis definitions with pyproj, not from CRS.units.
+    Geographic CRSs share units with each other (angular; grads are not generated), never with projected ones."""
+    pa, pb = a.proj, b.proj
+    if pa.is_geographic or pb.is_geographic:
+        return bool(pa.is_geographic and pb.is_geographic)
+    return axis_units(pa) == axis_units(pb)
+
+
+def axes_same_direction(c) -> bool:
+    """both horizontal axes point the same way (polar stereographic CRSs: north/north or south/south)"""
+    pc = c.proj
+    d = [str(a.direction) for a in pc.axis_info[:2]]
+    return pc.is_projected and len(d) == 2 and d[0] == d[1]
+
+
+def units_key(base, *crss) -> str:
+    return base + ("|axes-same-direction" if any(axes_same_direction(c) for c in crss) else "")
+
+
+def units_part(R: Run, mods):
+    """the same-units rule over the installed PROJ database: every distinct (axis abbreviation, direction, unit) pattern
+    of the projected EPSG CRSs (scanned on every run) plus a per-run random sample, each paired with the UTM zone of
+    its area of use, Web-Mercator and a database neighbour in the same unit — both directions.  Oracles: CRS.units
+    equality agrees with the axis definitions; default resolution = source resolution iff units are shared."""
+    import collections
+
+    import pyproj
+    from pyproj.database import query_crs_info
+    from pyproj.enums import PJType
+
+    Affine, GeoBox, ov, M, CRS, norm_crs, _pick, resxy_, xy_, AnchorEnum = mods
+    rng = R.rng
+    infos = [i for i in query_crs_info(auth_name="EPSG", pj_types=[PJType.PROJECTED_CRS]) if not i.deprecated and i.area_of_use is not None]
+    pat = collections.defaultdict(list)
+    unit_of, aou_of = {}, {}
+    for i in infos:
+        try:
+            ai = pyproj.CRS.from_epsg(int(i.code)).axis_info[:2]
+        except Exception:  # pylint: disable=broad-except
+            continue
+        code = int(i.code)
+        pat["|".join(f"{a.abbrev}/{a.direction}/{a.unit_name}" for a in ai)].append(code)
+        unit_of[code] = tuple(sorted(str(a.unit_name) for a in ai))
+        aou_of[code] = i.area_of_use
+    R.count("units:axis-patterns-in-proj-database", len(pat))
+    R.count("units:projected-crs-scanned", len(unit_of))
+    chosen = []
+    for key in sorted(pat):
+        codes = pat[key]
+        chosen += [(c, "pattern") for c in rng.sample(codes, min(len(codes), R.pick(1, 3)))]
+    allc = sorted(unit_of)
+    chosen += [(c, "sample") for c in rng.sample(allc, R.pick(8, 160))]
+    by_unit = collections.defaultdict(list)
+    for c in allc:
+        by_unit[unit_of[c]].append(c)
+
+    def mk(code_or_spec, lon, lat, res=10.0):
+        c = mk_crs(rng, CRS, code_or_spec if isinstance(code_or_spec, str) else f"EPSG:{code_or_spec}")
+        cx, cy = pyproj.Transformer.from_crs("EPSG:4326", c.proj, always_xy=True).transform(lon, lat)
+        if not (math.isfinite(cx) and math.isfinite(cy)):
+            return None
+        return GeoBox((40, 50), Affine(res, 0, round(cx / res) * res - 25 * res, 0, -res, round(cy / res) * res + 20 * res), c)
+
+    for code, why in chosen:
+        a = aou_of[code]
+        if a.west > a.east:
+            continue
+        lon, lat = (a.west + a.east) / 2, (a.south + a.north) / 2
+        partners = []
+        if abs(lat) < 79:
+            partners.append(f"EPSG:{utm_epsg(lon, lat)}")
+        if abs(lat) < 75:
+            partners.append("EPSG:3857")
+        nb = [c for c in rng.sample(by_unit[unit_of[code]], min(40, len(by_unit[unit_of[code]])))
+              if c != code and aou_of[c].west <= lon <= aou_of[c].east and aou_of[c].south <= lat <= aou_of[c].north]
+        if nb:
+            partners.append(f"EPSG:{nb[0]}")
+        plist = (partners if why == "pattern" else partners[-1:] + partners[:1])[:3]
+        if R.quick:
+            plist = plist[:1]  # quick tier: one partner, both directions for the pattern representatives
+        for pi, spec in enumerate(plist):
+            for (s_spec, d_spec) in ((f"EPSG:{code}", spec), (spec, f"EPSG:{code}"))[:(1 if (R.quick and why == "sample") else 2)]:
+                case = {"units": why, "src": s_spec, "dst": d_spec, "lonlat": [lon, lat]}
+                try:
+                    g = mk(s_spec, lon, lat)
+                    if g is None:
+                        continue
+                    dc = mk_crs(rng, CRS, d_spec)
+                    share = share_units(g.crs, dc)
+                    R.oracle((g.crs.units == dc.units) == share, units_key("units-agree-with-axis-definitions", g.crs, dc), case,
+                             f"CRS.units {g.crs.units} vs {dc.units} (equal: {g.crs.units == dc.units}) but the axis definitions say "
+                             f"{axis_units(g.crs.proj)} vs {axis_units(dc.proj)}", sig=f"units|{why}|{'shared' if share else 'different'}")
+                    dst_arg = rng.choice([d_spec, dc, int(d_spec.split(":")[1])])
+                    out = ov.compute_output_geobox(g, dst_arg) if rng.random() < 0.5 else g.to_crs(dst_arg)
+                except Exception as e:  # pylint: disable=broad-except
+                    if type(e).__name__ == "ProjError" or "nan" in repr(e).lower() or "inf" in repr(e).lower():
+                        R.count("units:skipped-no-transformation-available")  # PROJ grid files not installed, ...
+                        continue
+                    R.oracle(False, "compute-output-raises", case, f"{type(e).__name__}: {e}")
+                    continue
+                A, sr = out.affine, g.resolution
+                if share:
+                    R.oracle(close_rel(A.a, sr.x) and close_rel(A.e, sr.y) and A.b == 0 and A.d == 0, units_key("same-units-resolution", g.crs, dc), case,
+                             f"both CRSs are in {axis_units(dc.proj)}: source resolution {sr.x},{sr.y} but output {A.a},{A.e}",
+                             sig=f"units|{why}|shared")
+                else:
+                    R.oracle(A.a > 0 and A.e == -A.a, "fit-positive-square", case, f"output pixel {A.a},{A.e}", sig=f"units|{why}|different")
+
+
+
+# ------------------------------------------------------------------ glue: argument dispatch of CRS.utm / norm_crs, centre-pixel box
+def glue_part(R: Run, mods):
+    """argument forms around the modelled core: (1) CRS.utm(x[, y]) / CRS.utm(XY) / CRS.utm(BoundingBox) / CRS.utm(Geometry)
+    — the area of interest handed to pyproj's database query (intercepted at the pyproj boundary) is the model's box;
+    (2) norm_crs / norm_crs_or_error on CRS objects, None, Unset, strings, EPSG ints, junk, 'utm*' without a context;
+    (3) the centre-pixel estimate: resolution of from_bbox(cp_bbox, shape=(1,1), tight=True) is the span of the box."""
+    import pyproj.database as pdb
+    from odc.geo import geom
+    from odc.geo.geom import BoundingBox
+    from odc.geo.types import Unset
+
+    Affine, GeoBox, ov, M, CRS, norm_crs, _pick, resxy_, xy_, AnchorEnum = mods
+    from odc.geo.crs import norm_crs_or_error
+
+    rng = R.rng
+    orig = pdb.query_utm_crs_info
+    rec = []
+
+    def spy(*a, **kw):
+        rec.append(kw.get("area_of_interest", a[1] if len(a) > 1 else None))
+        return orig(*a, **kw)
+
+    def bb_s(b):
+        return ",".join(frac_s(v) for v in b)
+
+    pdb.query_utm_crs_info = spy
+    try:
+        for _ in range(R.pick(14, 140)):
+            lon = rng.randint(-170 * 4, 170 * 4) / 4
+            lat = rng.randint(-70 * 4, 75 * 4) / 4
+            w, h = rng.choice([0.25, 0.5, 2.0]), rng.choice([0.25, 1.0])
+            kind = rng.choice(["bbox", "geomcrs", "geom", "num", "numy", "xy", "int"])
+            if kind == "bbox":
+                arg, line = (BoundingBox(lon, lat, lon + w, lat + h),), f"c11 utmarg bbox {bb_s((lon, lat, lon + w, lat + h))} N"
+            elif kind == "geom":
+                arg, line = (geom.box(lon, lat, lon + w, lat + h, None),), f"c11 utmarg geom {bb_s((lon, lat, lon + w, lat + h))} 0,0,0,0"
+            elif kind == "geomcrs":
+                src = rng.choice(["EPSG:4326", "EPSG:3857"])
+                gm = geom.box(lon, lat, lon + w, lat + h, "EPSG:4326").to_crs(src)
+                ll = gm.to_crs("epsg:4326").boundingbox  # the pyproj part, captured
+                arg, line = (gm,), f"c11 utmarg geomcrs {bb_s(gm.boundingbox.bbox)} {bb_s(ll.bbox)}"
+            elif kind == "num":
+                arg, line = (lon,), f"c11 utmarg num {frac_s(lon)} N"
+            elif kind == "int":
+                arg, line = (int(lon),), f"c11 utmarg num {int(lon)} N"
+            elif kind == "numy":
+                arg, line = (lon, lat), f"c11 utmarg numy {frac_s(lon)} {frac_s(lat)}"
+            else:
+                arg, line = (xy_(lon, lat),), f"c11 utmarg xy {frac_s(lon)} {frac_s(lat)}"
+
+            def f():
+                rec.clear()
+                CRS.utm(*arg)
+                a = rec[-1]
+                return bb_s((a.west_lon_degree, a.south_lat_degree, a.east_lon_degree, a.north_lat_degree))
+
+            R.corr(line, f, sig=f"utmarg|{kind}")
+    finally:
+        pdb.query_utm_crs_info = orig
+    # norm_crs dispatch
+    pool = [("obj", CRS("EPSG:4326"), "x", 4326), ("obj", CRS("EPSG:32633"), "x", 32633), ("none", None, "x", None), ("unset", Unset(), "x", None),
+            ("str", "EPSG:3857", "EPSG:3857", 3857), ("str", "epsg:32755", "epsg:32755", 32755), ("str", "bogus", "bogus", None),
+            ("str", "utm", "utm", None), ("str", "UTM-N", "UTM-N", None), ("str", "utmost", "utmost", None), ("str", "Utm-s", "Utm-s", None),
+            ("other", 3857, "x", 3857), ("other", 4326, "x", 4326), ("other", {"init": "junk"}, "x", None), ("other", 999999, "x", None)]
+    for kind, arg, raw, parsed in pool:
+        for ctx in (False, True):
+            for orerr in (False, True):
+                if ctx and kind == "str" and raw.lower().startswith("utm"):
+                    continue  # resolved through CRS.utm(ctx): stream `utmtxt`
+                fn = norm_crs_or_error if orerr else norm_crs
+
+                def f():
+                    r = fn(arg, geom.box(15, 47, 15.5, 47.25, "EPSG:4326")) if ctx else fn(arg)
+                    if r is None:
+                        return "none"
+                    if kind == "obj" and r is not arg:
+                        return "copy"
+                    return f"crs:{r.epsg}"
+
+                R.corr(f"c11 normcrs {kind} {raw} {opt_s(parsed)} {bool_s(ctx)} {bool_s(orerr)}", f, sig=f"normcrs|{kind}")
+    # centre-pixel estimate through the public from_bbox
+    for _ in range(R.pick(40, 400)):
+        l, b = rng.randint(-4000, 4000) / 8, rng.randint(-4000, 4000) / 8
+        w, h = rng.randint(0, 64) / 8, rng.randint(0, 64) / 8
+        bb = (l, b, l + w, b + h)
+
+        def f():
+            g = GeoBox.from_bbox(bb, "EPSG:3857", shape=(1, 1), tight=True)
+            return pair_s((g.resolution.x, g.resolution.y))
+
+        R.corr(f"c11 cpres {bb_s(bb)}", f, sig="cpres|" + ("degenerate" if w == 0 or h == 0 else "plain"))
+
+
+
+def gcp_source_part(R: Run, mods):
+    """GCPGeoBox sources: compute_output_geobox never hands the source back (it is not a GeoBox), own CRS with default
+    options included; the grid is the one the model computes from the captured footprint box."""
+    from odc.geo.gcp import GCPGeoBox, GCPMapping
+
+    Affine, GeoBox, ov, M, CRS, norm_crs, _pick, resxy_, xy_, AnchorEnum = mods
+    rng = R.rng
+    for _ in range(R.pick(16, 160)):
+        ny, nx = rng.choice([4, 6, 9]), rng.choice([5, 8, 10])
+        crs = rng.choice(["EPSG:4326", "EPSG:32633"])
+        pix = [(x, y) for x in (0.0, nx * 0.5 + 0.25, float(nx)) for y in (0.0, ny * 0.25 + 0.125, float(ny))]
+        if crs == "EPSG:4326":
+            wld = [(14 + 0.25 * x + 0.03125 * y, 50 - 0.25 * y + 0.0625 * x) for x, y in pix]
+        else:
+            wld = [(500000 + 1024 * x + 128 * y, 5500000 - 1024 * y + 256 * x) for x, y in pix]
+        g = GCPGeoBox((ny, nx), GCPMapping(np.asarray(pix, dtype="float64"), np.asarray(wld, dtype="float64"), crs))
+        dst = crs if rng.random() < 0.6 else rng.choice(["EPSG:3857", "EPSG:4326", "EPSG:32633"])
+        mode = rng.choice(["auto", "auto", "same", (1024.0, -1024.0) if crs != "EPSG:4326" or dst != crs else (0.25, -0.25)])
+        if mode == "same" and not share_units(g.crs, CRS(dst)):
+            mode = "auto"
+        anchor = rng.choice(["default", "default", "center", "floating"])
+        tight = rng.random() < 0.2
+        tol = rng.choice([0.01, 0.0, 0.125])
+        subst = (2.0 ** rng.randint(-4, 12), 2.0 ** rng.randint(-4, 12), 2.0 ** rng.randint(-1, 1), 2.0 ** rng.randint(-1, 1))
+        case = {"gcp-source": True, "shape": [ny, nx], "crs": crs, "dst": dst, "mode": str(mode), "anchor": anchor, "tight": tight, "tol": tol}
+        try:
+            out, spy = call_cog(mods, g, dst, mode, None, tight, anchor, tol, None, subst)
+        except Exception as e:  # pylint: disable=broad-except
+            R.oracle(False, "compute-output-raises", case, f"GCP source: {type(e).__name__}: {e}")
+            continue
+        R.oracle(out is not g and isinstance(out, GeoBox), "gcp-source-gives-geobox", case,
+                 f"compute_output_geobox(GCPGeoBox, {dst}) returned {type(out).__name__}{' (the source itself)' if out is g else ''}")
+        if not isinstance(out, GeoBox):
+            continue
+        try:
+            line, bbox = captured_line(mods, g, dst, mode, None, tight, anchor, tol, None, spy)
+        except Exception:  # pylint: disable=broad-except
+            continue
+        line = line.replace("c11 out ", "c11 outany F ", 1)
+        if needs_fit(g, bbox.crs, mode, None) and not spy.fit_recorded():
+            R.count("exact:skipped-fit-not-intercepted")
+            continue
+        # the source resolution of a GCP box is an estimate in doubles: compare the grid only when it does not enter
+        if mode == "same" or (mode == "auto" and share_units(g.crs, bbox.crs)):
+            A = out.affine
+            sr = g.resolution
+            R.oracle(close_rel(A.a, sr.x) and close_rel(A.e, sr.y), "same-units-resolution", case, f"source resolution {sr.xy} output {A.a},{A.e}")
+            continue
+        R.corr(line, lambda: grid_s(out), sig=f"outany|gcp|{'own-crs' if dst == crs else 'x-crs'}|{mode_s(mode).split(':')[0]}")
 
 
 # ------------------------------------------------------------------ utm / pick_best
@@ -476,7 +824,7 @@ def utm_part(R: Run, mods):
         poly = geom.box(lon, lat, min(lon + w, 180), min(lat + w, 84), "EPSG:4326")
         base = CRS.utm(poly)
         south = base.proj.utm_zone.endswith("S")
-        for raw in ["utm", "utm-n", "utm-s"] + rng.sample(UTM_SPELLINGS[3:] + ["utm-x", "UTMN", "utm-"], 3):
+        for raw in ["utm", "utm-n", "utm-s"] + rng.sample(UTM_SPELLINGS[3:] + ["utm-x", "UTMN", "utm-"], R.pick(1, 3)):
             req = raw.lower() if raw.lower() in ("utm", "utm-n", "utm-s") else "utm"
             got = []
 
@@ -501,7 +849,10 @@ def utm_part(R: Run, mods):
                     R.oracle(vr is None or (vr & poly).area > 0, "utm-valid-area-overlap", {"lon": lon, "lat": lat},
                              f"valid region of EPSG:{c.epsg} does not overlap the raster")
     # _pick_best_crs with real candidates: compare with the model given the overlap fractions
-    for _ in range(R.pick(40, 400)):
+    if _pick is None:
+        R.notes.append("odc.geo.crs._pick_best_crs (private helper) not found: its direct correspondence stream is skipped; "
+                       "the UTM choice stays covered through norm_crs / CRS.utm / compute_output_geobox('utm*')")
+    for _ in range(R.pick(40, 400) if _pick is not None else 0):
         lon = rng.uniform(-170, 170)
         lat = rng.uniform(-70, 70)
         w = rng.choice([0.0, 1e-5, 1e-5, 1.0, 4.0, 9.0])
@@ -684,7 +1035,7 @@ def float_part(R: Run, mods):
     Affine, GeoBox, ov, M, CRS, norm_crs, _pick, resxy_, xy_, AnchorEnum = mods
     rng = R.rng
     anchors = ["default", "default", "default", "edge", "center", "floating", (0.3, 0.6), (0.3, 0.3)]
-    for it in range(R.pick(96, 600)):
+    for it in range(R.pick(84, 600)):
         aus = rng.random() < 0.2
         if aus:
             lon, lat = rng.uniform(118, 148), rng.uniform(-38, -15)
@@ -835,11 +1186,12 @@ def judge(R, mods, g, dst, mode, shape, tight, anchor, tol, rnd, out, spy, case,
         R.oracle(False, "degenerate-output", case, f"shape {out.shape} affine {tuple(A)[:6]}")
         return
     # units rule
-    if mode == "auto" and shape is None and g.crs.units == out.crs.units:
+    shared = share_units(g.crs, out.crs)  # from the axis definitions (pyproj), not from CRS.units
+    if mode == "auto" and shape is None and shared:
         sr = g.resolution
-        R.oracle(A.a == sr.x and A.e == sr.y, "same-units-resolution", case,
+        R.oracle(close_rel(A.a, sr.x) and close_rel(A.e, sr.y), units_key("same-units-resolution", g.crs, out.crs), case,
                  f"source resolution {sr.x},{sr.y} but output {A.a},{A.e}", sig=sig)
-    if shape is None and (mode == "fit" or (mode == "auto" and g.crs.units != out.crs.units)):
+    if shape is None and (mode == "fit" or (mode == "auto" and not shared)):
         R.oracle(A.a > 0 and A.e == -A.a, "fit-positive-square", case, f"output pixel {A.a},{A.e}", sig=sig)
         if spy.cp is not None and spy.scale is not None and rnd is None:
             want = (abs(F(spy.cp[0]) / F(spy.scale[0])) + abs(F(spy.cp[1]) / F(spy.scale[1]))) / 2
@@ -852,7 +1204,7 @@ def judge(R, mods, g, dst, mode, shape, tight, anchor, tol, rnd, out, spy, case,
     if shape is not None:
         shape_oracle(R, shape, out, tight, anchor, case, sig, tol)
     # footprint bbox the code used (captured) -> cover / minimal / alignment with exact rationals
-    bb = spy.final["bbox"] if spy.final is not None else None
+    bb = as_bb(spy.final.get("bbox")) if spy.final is not None else None
     if bb is not None and same_crs:
         # the hypothesis of theorem out_encloses_every_pixel_linear, checked exactly: in the linear (own-CRS) case the
         # footprint box contains the four corners of the source extent
@@ -1081,6 +1433,13 @@ def utm_matrix_part(R: Run, mods):
         lons, lats = [c[0] for c in cs], [c[1] for c in cs]
         if not all(math.isfinite(v) for v in lons + lats) or max(lons) - min(lons) > 20:
             continue
+        if (180 - max(abs(v) for v in lons)) * 111320.0 * math.cos(math.radians(lat)) < 2.0 * res:
+            # a source given in a UTM CRS is turned against the meridians (grid convergence): a corner can come closer to
+            # +-180 than the centre-based margin above allows, and the 0.9 px footprint buffer then crosses the antimeridian
+            # (the footprint's lon/lat box spans the globe and the UTM choice is arbitrary) — excluded like the rest of
+            # "outside the valid area of the source CRS"; reported as a known-finding candidate
+            R.count("utm-matrix:skipped-buffer-crosses-antimeridian")
+            continue
         req = rng.choice(UTM_SPELLINGS)
         rl = req.lower()
         case = {"utm-matrix": kind, "src": f"{tuple(g.shape)} {tuple(g.affine)[:6]} {sc}", "dst": req, "centre": [lon, lat],
@@ -1124,7 +1483,7 @@ def coarse_part(R: Run, mods):
     anchor fractions are derived from the footprint bbox the code will see)"""
     Affine, GeoBox, ov, M, CRS, norm_crs, _pick, resxy_, xy_, AnchorEnum = mods
     rng = R.rng
-    for _ in range(R.pick(40, 160)):
+    for _ in range(R.pick(30, 160)):
         k = rng.random()
         if k < 0.6:
             z = rng.randint(28, 37)
@@ -1175,6 +1534,9 @@ def run(R: Run):
     footprint_part(R, mods)
     exact_cog_part(R, mods)
     utm_part(R, mods)
+    glue_part(R, mods)
+    gcp_source_part(R, mods)
+    units_part(R, mods)
     crs_churn(R, mods, R.pick(320, 1600))
     nonepsg_part(R, mods)
     fastpath_part(R, mods)
